@@ -63,12 +63,14 @@ fn main() {
         ["c16", "replay", path] => c16::replay(path),
         ["c20", "deepgen", shape, n, path] => c20::deepgen(shape, n.parse().unwrap(), path),
         ["c20", "deepdec", path, place] => c20::deepdec(path, *place == "thread"),
+        ["c20", "deepbuild", shape, n, place] => c20::deepbuild(shape, n.parse().unwrap(), *place == "thread"),
         ["c20", "record", rounds, threads, ops, path] => c20::record(rounds.parse().unwrap(), threads.parse().unwrap(), ops.parse().unwrap(), path),
         ["c15", "record", runs, path] => c15::record(runs.parse().unwrap(), path),
         ["c15", "replay", cases, path] => c15::replay(cases, path),
         ["c15", "atoms", path] => c15::atoms(path),
         ["c17", "replay", path] => c17::replay(path),
         ["c17", "probe", text] => c17::probe(text),
+        ["c17", "types", path] => c17::types(path),
         ["c17", "record", runs, path] => c17::record(runs.parse().unwrap(), path),
         ["c17", "totality", runs, path] => c17::totality(runs.parse().unwrap(), path),
         ["c17", "parse1", path] => c17::parse1(path),
